@@ -198,6 +198,8 @@ def weak_config(h, mesh, elem, form, kind, free=None, trial=None, intorder=None,
                 return fn(*_tup(w_['uprev']), *args[:-1], w_)
             L = S.LinearForm(lform, dtype=dt)
             ex2 = dict(extra)
+            if 'k' in ex2:
+                ex2['k'] = ub.interpolate(ex2['k'])     # a coefficient vector belongs to the trial basis
             ex2['uprev'] = uf
             if h.sym_mode:
                 (rws,), dat, shp, _ = _lin_assemble(L, vb, ex2)
@@ -223,13 +225,64 @@ def weak_config(h, mesh, elem, form, kind, free=None, trial=None, intorder=None,
             h.zero('functional: sum(elemental) == s', np.sum(el) - s, scale=scale or 1.0)
 
 
+def floatpath_config(h, mesh, elem, form, kind, scale):
+    """Mode F: the real float64 assemble() (COOData -> scipy CSR, duplicate summation, eliminate_zeros) against the exact
+    assembly on the same numeric geometry; for every row i, |((A_float - A_exact) u)_i| <= 1e-9 max|A_exact| for ALL u in [-1,1]^N."""
+    import skfem as S
+    from engine import stubs_misc
+    from engine.zoo import topo
+    from fractions import Fraction
+    ctor, cat, _ = ELEMENTS()[elem]
+    fn, req = FORMS()[form]
+    cname, p, t = topo(mesh)
+    sc = float(scale)
+    with warnings.catch_warnings():
+        warnings.simplefilter('ignore')
+        if h.sym_mode:
+            with stubs_misc.plain_numpy():
+                mf = getattr(S, cname)(p * sc, t)
+                bf = make_basis(h, mf, ctor(), kind)
+                Af = S.BilinearForm(fn).assemble(bf)
+                h.concrete('float path returns a scipy CSR matrix of float64', Af.dtype == np.float64 and Af.format == 'csr')
+                Afd = Af.toarray()
+            m = make_mesh(h, mesh, pt=(cname, p * sc, t), free='none')
+            b = make_basis(h, m, ctor(), kind)
+            (rows, cols), data, shape, _ = S.BilinearForm(fn, dtype=object)._assemble(b)
+            N = int(b.N)
+            E = np.zeros((N, N), dtype=object)
+            for r, c_, d in zip(rows, cols, data):
+                E[r, c_] = E[r, c_] + d
+            mx = max(abs(float(v)) for v in E.ravel())
+            u = h.sym('u', (N,), nominal=np.ones(N) * 0.5)
+            for j in range(N):
+                h.assume(h.And(u[j] >= -1, u[j] <= 1))
+            tol = h.frac(Fraction(mx) / 10 ** 9)
+            h.sample(dict(mode='float path', mesh=mesh, scale=sc, element=elem, integrand=form, N=N, max_entry=mx))
+            for i in range(N):
+                r = sum((h.frac(Fraction(float(Afd[i, j]))) - E[i, j]) * u[j] for j in range(N))
+                h.valid('row %d: |(A_float - A_exact) u| <= 1e-9 max|A|' % i, h.And(r <= tol, r >= -tol), kinds=('default',))
+        else:
+            mf = getattr(S, cname)(p * sc, t)
+            bf = make_basis(h, mf, ctor(), kind)
+            F = S.BilinearForm(fn)
+            Afd = F.assemble(bf).toarray()
+            (rows, cols), data, shape, _ = F._assemble(bf)
+            N = int(bf.N)
+            E = np.zeros((N, N))
+            np.add.at(E, (rows, cols), data)
+            mx = np.abs(E).max()
+            for i in range(N):
+                if np.abs(Afd[i] - E[i]).sum() > 1e-9 * mx:
+                    h.failed_keys.append(('row %d: |(A_float - A_exact) u| <= 1e-9 max|A|' % i, float(np.abs(Afd[i] - E[i]).sum() / mx)))
+
+
 def _lin_assemble(L, vb, extra):
     out = L._assemble(vb, **extra)
     rows, data, shape, lshape = out
     return (np.asarray(rows).reshape(-1),), data, shape, lshape
 
 
-MESH_KIND = dict(tri2heron='tri', line2='line', line3='line', line3perm='line', tri1='tri', tri2='tri', tri2perm='tri', tri3fan='tri',
+MESH_KIND = dict(tri2heron='tri', tri2heron0='tri', line2='line', line3='line', line3perm='line', tri1='tri', tri2='tri', tri2perm='tri', tri3fan='tri',
                  tri4patch='tri', quad1='quad', quad2='quad', tet1='tet', tet2='tet', hex1='hex', hex2='hex', wedge1='wedge')
 
 
@@ -334,6 +387,12 @@ def build_configs(tier, seed):
         add('hex1', 'Hex0', 'mass', 'cell', free=[0, 1])
         add('hex1', 'HexRT1', 'hdiv', 'cell', free='none')
         add('wedge1', 'Wedge1', 'wx', 'cell', free=[0])
+    # --- Mode F: real float64 CSR path against the exact assembly, unit-size and tiny (1e-9) geometry ----------------------------
+    for (mesh, elem, form, kind) in [('tri2', 'TriP2', 'lap', 'cell'), ('tri2', 'TriP1', 'mass', 'cell'), ('tet2', 'TetP1', 'mass', 'cell'),
+                                     ('line3perm', 'LineP2', 'mass', 'cell'), ('tri2heron0', 'TriP1', 'mass', 'facet'), ('quad2', 'Quad1', 'mass', 'cell')]:
+        for scale in ((1.0, 2.0 ** -30) if quick else (1.0, 2.0 ** -20, 2.0 ** -30, 2.0 ** 10)):   # powers of two: exact scaling
+            cfgs.append(dict(name='floatpath/%s/%s/%s/%s/scale=%g' % (mesh, elem, form, kind, scale), fn=floatpath_config,
+                             kw=dict(mesh=mesh, elem=elem, form=form, kind=kind, scale=scale), opts=dict(timeout=300)))
     return cfgs
 
 
